@@ -1,5 +1,6 @@
 import OomdProofs.EngineC05
 import OomdProofs.EngineRun
+import OomdProofs.RsCgroupClock
 import OomdProps.C02
 import OomdProps.C17
 
@@ -156,5 +157,67 @@ theorem kill_plugin_keeps_protocol (cfg : OomdModel.Kill.KillCfg) (rank : List O
     (OomdModel.Kill.runKill cfg rank roots env).val = .stop ∧ cfg.postActionDelay = some d :=
   let r := (C17.pause_iff_stop cfg rank h roots env d).1 hp
   ⟨r.1, r.2.2⟩
+
+/-! ### ruleset-cgroup rulesets: the pause is per matching cgroup
+
+"(per matching cgroup, for ruleset-cgroup rulesets)".  The model of a ruleset with a ruleset-level `cgroup` setting is
+`OomdModel.RsCgroup` (C11): one persistent instance per matching cgroup, run by `rsRun` - the plain ruleset model the theorems
+above are about - on its own state.  `instObs_eq_rsHistory` (OomdProofs.RsCgroupClock) shows that over any history in which a
+path keeps matching, what C05 observes of its instance *is* an `rsHistory` of the plain model from the instance's state (the
+per-cgroup loop only moves the clock forward), so the property transfers instance by instance.  The real engine is held to
+this by the `percg` pass of this check (h_rscgroup, clauses `C05.percg_*`). -/
+
+open OomdModel.RsCgroup in
+/-- **C05 per matching cgroup.**  For every ruleset-cgroup configuration, every world, every path `p` that has an instance
+and every history of ticks - any tick spacing, any set of other matching cgroups appearing / vanishing / stopping / pausing,
+any scripts - in all of which `p` keeps matching: no action of `p`'s instance runs before `t + d` after a chain of that
+instance ended with STOP at `t` with effective delay `d`. -/
+theorem percg_no_action_during_pause (F : Fixes) (hs : F.skipVisited = true) (hinv : F.invOnResume = true) (cfg : Cfg)
+    (p : Path) (ts : List CgTickIn) (w : CgWorld) (hw : WF w) (i : Inst) (hi : find p w.insts = some i)
+    (hp : ∀ t ∈ ts, present cfg.filter t.ms p = true)
+    (hproto : ∀ t ∈ ts, Protocol (t.sc p)) (hg : i.st.overrode = false) :
+    holdsC05 (instObs cfg p ts (runEvs F cfg w ts)) = true := by
+  obtain ⟨invs, hsc, hEq⟩ := instObs_eq_rsHistory F hs cfg p ts w hw i hi w.now (Nat.le_refl _) hp
+  rw [hEq, hinv]
+  refine no_action_during_pause cfg.rs invs i.st w.now ?_ hg
+  intro j hj
+  obtain ⟨t, ht, e⟩ := hsc j hj
+  rw [e]
+  exact hproto t ht
+
+open OomdModel.RsCgroup in
+/-- **Meanwhile the instance's detectors keep executing every tick, and another instance's pause does not hold it back.**
+An instance reached inside its own pause runs every detector of the ruleset, no action, and keeps its state; what it does
+depends on no other instance's state (`C11.instances_independent`). -/
+theorem percg_paused_instance (F : Fixes) (cfg : Cfg) (p : Path) (i : Inst) (sc : Script) (now ctr g : Nat)
+    (hpz : (detPhase cfg.rs sc cfg.rs.groups now ctr none).2.2.1 < i.st.pauseUntil) :
+    (instVisit F cfg p (some i) sc now ctr g).inst = i ∧
+    ∃ evs, (instVisit F cfg p (some i) sc now ctr g).evs = evs.map (CEv.run p i.gen) ∧
+      detInsts evs = cfg.rs.groups.flatMap (·.dets) ∧ actInsts evs = [] := by
+  obtain ⟨h1, h2, h3⟩ := paused_tick F.invOnResume cfg.rs sc i.st now ctr hpz
+  refine ⟨?_, (rsRun F.invOnResume cfg.rs sc i.st now ctr).2.1, ?_, h1, h2⟩
+  · simp only [instVisit, h3]
+  · simp [instVisit]
+
+open OomdModel.RsCgroup in
+/-- **From `t + d` on the instance's actions run again** (also exactly at `t + d`, and always when `d = 0`). -/
+theorem percg_actions_resume (F : Fixes) (cfg : Cfg) (p : Path) (i : Inst) (sc : Script) (now ctr g : Nat)
+    (hact : i.st.active = none) (hfire : (cfg.rs.groups.find? (fires sc)).isSome = true)
+    (hle : i.st.pauseUntil ≤ (detPhase cfg.rs sc cfg.rs.groups now ctr none).2.2.1) :
+    ∃ evs, (instVisit F cfg p (some i) sc now ctr g).evs = evs.map (CEv.run p i.gen) ∧
+      actInsts evs = takeThrough sc cfg.rs.actions :=
+  ⟨(rsRun F.invOnResume cfg.rs sc i.st now ctr).2.1, by simp [instVisit],
+   actions_resume F.invOnResume cfg.rs sc i.st now ctr hact hfire hle⟩
+
+/-- the hypotheses of `percg_no_action_during_pause` are satisfiable: two matching cgroups, one instance already there -/
+example :
+    let cfg : OomdModel.RsCgroup.Cfg := { rs := cexCfg, filter := false, own := fun _ => none }
+    let w : OomdModel.RsCgroup.CgWorld := { insts := [("s/a", { gen := 0, st := {} })], now := 1000, nextGen := 1 }
+    let t : OomdModel.RsCgroup.CgTickIn := { gap := 5, ms := [{ path := "s/b" }, { path := "s/a" }], sc := fun _ _ => {} }
+    OomdModel.RsCgroup.find "s/a" w.insts = some { gen := 0, st := {} } ∧
+      OomdModel.RsCgroup.present cfg.filter t.ms "s/a" = true ∧ Protocol (t.sc "s/a") := by
+  refine ⟨by decide, by decide, ?_⟩
+  intro a h
+  simp at h
 
 end C05
